@@ -158,7 +158,24 @@ def collOp : Op := do
   pure (verdict (okMkColl cs q o)
     (match o with | .ok _ => "illformed" | .refused => "refused-valid" | .internal => "internal"))
 
+/-- grid lines with a variable number of argument tokens: everything up to `=>` is skipped -/
+partial def skipToArrow : P Unit := do
+  match (← tok) with
+  | "=>" => pure ()
+  | _ => skipToArrow
+
+def gridVerdictAny : P String := do
+  skipToArrow
+  let a ← pRest
+  match a with
+  | ["ok", "wf"] => pure "pass"
+  | "ok" :: "illformed" :: why => pure ("fail illformed " ++ " ".intercalate why)
+  | ["err", c] => pure (if documented.contains c then "pass" else s!"fail undocumented {c}")
+  | "err!" :: c => pure ("fail internal " ++ " ".intercalate c)
+  | _ => throw "answer?"
+
 def ops : List (String × Op) := [
+  ("gbparse", gridVerdictAny),
   ("ctor", gridVerdict true),
   ("call", gridVerdict false),
   ("mkvar", do
